@@ -302,8 +302,15 @@ def _run(plan, base):
     xplan = {"property": PROP, "seed": plan["seed"], "world": w, "knobs": knobs, "sel_seed": sel_seed,
              "steps": executed}
     stats["outcomes"]["violation" if viol else "held"] = 1
-    return {"violation": viol, "stats": stats, "digest": digest(log), "plan": xplan,
-            "sample": {"world": w, "knobs": knobs, "history": log[:12]}}
+    step_events = stats.pop("_step_events", [])
+    if plan.get("sweep_of") is not None:
+        xplan["sweep_of"] = plan["sweep_of"]
+        stats["probes"]["fault_sweep_plans"] = 1
+    out = {"violation": viol, "stats": stats, "digest": digest(log), "plan": xplan,
+           "sample": {"world": w, "knobs": knobs, "history": log[:12]}}
+    if plan.get("want_events"):
+        out["step_events"] = step_events
+    return out
 
 
 def _exec_step(W, st, model, log, stats, bump, seed, progress=False):
@@ -325,6 +332,8 @@ def _exec_step(W, st, model, log, stats, bump, seed, progress=False):
     src_sha = {p.name: sha1_file(p) for p in (W.bin, W.cbin, W.ch) if p.exists()}
     res = session.run_step(W.root, do_step, st, fault, W.cfg, pool_seed)
     stats["steps"] += len(res["events"])
+    if not progress:
+        stats.setdefault("_step_events", []).append(res["events"])
     fired = res["fired"] if res["fired"] and res["fired"]["kind"] in ("kill", "torn", "io_error") else None
     out = res["outcome"]
     failed = fired is not None or (out is not None and "exc" in out) or out is None
@@ -512,6 +521,51 @@ def _read_checks(W, model, rsel, log, stats, bump):
             m = p.with_suffix(".meta")
             if m.exists():
                 m.unlink()
+
+
+def sweep_plans(tier, verif_seed):
+    """Fault sweeps: for seeded base configurations and each operation, EVERY event of the
+    operation is faulted once with every applicable kind (kill, io_error, torn)."""
+    from sim.common import run_seed
+    nbase = {"quick": 2, "thorough": int(os.environ.get("VERIF_C02_SWEEPS", "24"))}[tier]
+    for b in range(nbase):
+        s = run_seed(verif_seed, PROP + "-sweep", b)
+        r = rng_of(s)
+        w = _gen_world(r, tier)
+        w["nap"] = min(w["nap"], 32)
+        w["ns"] = min(w["ns"], 8000)
+        knobs = _gen_knobs(r)
+        fs = world.meta_fs(w["fixture"])
+        cs, cd = _chunking(r, w["ns"], fs)
+        ck = {"chunk_samples": cs, "chunk_duration": cd, "n_threads": r.choice([1, 2, 4]), "check_after": r.random() < 0.7, "via": "kwargs"}
+        pre_c = dict({"op": "compress", "keep_original": False, "fault": None}, **ck)
+        targets = [
+            ([], dict({"op": "compress", "keep_original": True}, **ck)),
+            ([], dict({"op": "compress", "keep_original": False}, **ck)),
+            ([pre_c], {"op": "decompress", "keep_original": True, "overwrite": False}),
+            ([pre_c], {"op": "decompress", "keep_original": False, "overwrite": False}),
+            ([pre_c], {"op": "to_scratch", "scratch_dir": "scratch"}),
+            ([pre_c], {"op": "to_scratch", "scratch_dir": None}),
+            ([pre_c], dict({"op": "inplace_cycle", "overwrite": False}, **ck)),
+        ]
+        if tier == "quick":
+            targets = [targets[i] for i in sorted(r.sample(range(len(targets)), 3))]
+        for pre, tgt in targets:
+            base = {"property": PROP, "seed": s, "world": w, "knobs": knobs, "sel_seed": s % 100000,
+                    "steps": [dict(x) for x in pre] + [dict(tgt, fault=None)], "want_events": True}
+            res = run_plan(base)
+            ev = (res.get("step_events") or [[]])[-1]
+            for k, lab in enumerate(ev):
+                if not eligible(lab):
+                    continue
+                op = lab.split(":", 1)[0]
+                kinds = ["kill", "io_error"] + (["torn"] if op in ("write", "tofile") else [])
+                for kind in kinds:
+                    f = {"kind": kind, "at": k, "label": lab}
+                    if kind == "torn":
+                        f["tear"] = 0.5
+                    yield {"property": PROP, "seed": s, "world": w, "knobs": knobs, "sel_seed": s % 100000,
+                           "steps": [dict(x) for x in pre] + [dict(tgt, fault=f)], "sweep_of": b}
 
 
 def shrink_candidates(plan):
